@@ -19,7 +19,7 @@ func init() {
 		Explanation: "Decides, as identities of rational functions valid for all coordinate assignments (not for sampled points): Negate = (−X:Y:Z:−T); Add and Subtract equal the affine law x3=(x1y2+y1x2)/(1+d·x1x2y1y2), y3=(y1y2+x1x2)/(1−d·x1x2y1y2) after T=XY/Z, with T3·Z3=X3·Y3; the dedicated doubling equals the law for P+P modulo the curve equation; MultByCofactor is three such doublings; Sub/AddAffine/SubAffine agree with Add on the corresponding cached forms; results are invariant under rescaling either input; d = −121665/121666 and d2 = 2d evaluated from their literals. NOT decided: completeness (that the denominators never vanish on curve points because d is a non-square — number theory), behaviour on the eight small-order points beyond what the identities imply, limb-form independence (that is C09).",
 		Assumptions: []string{"denominators inverted by the code (Z1, Z2, 1±d·x1x2y1y2) are non-zero: rational-function identities hold wherever both sides are defined"},
 		TrustedBase: trustedE9,
-		Floors:      []report.Floor{{Rule: "E9", Min: 2 * 10}, {Rule: "E9-CONST", Min: 2 * 3}},
+		Floors:      []report.Floor{{Rule: "E9", Min: 12}, {Rule: "E9-CONST", Min: 3}},
 		Build: func(c *Ctx) {
 			for _, cfg := range c.Configs() {
 				c.e9GroupLaw(cfg)
@@ -31,7 +31,7 @@ func init() {
 		ID: "C05", Level: "other", Technique: "abstract interpretation of Point.bytes in the field-expression domain; the encoded quantities are compared as rational functions and checked for homogeneity degree 0",
 		Explanation: "Decides: Point.Bytes returns enc(Y·Z⁻¹) with bit 7 of byte 31 or-ed with IsNegative(X·Z⁻¹) — both arguments invariant under rescaling (X:Y:Z:T) — into a fresh buffer (R-FRESH). Canonicity of enc and of IsNegative is C10. NOT decided: the round trip SetBytes(Bytes(P)) = P and re-encoding of non-canonical inputs (needs r(y)² = x² reasoning about square roots).",
 		TrustedBase: trustedE9,
-		Floors:      []report.Floor{{Rule: "E9", Min: 2 * 2}, {Rule: "R-FRESH", Min: 2}},
+		Floors:      []report.Floor{{Rule: "E9", Min: 2}, {Rule: "R-FRESH", Min: 1}},
 		Build: func(c *Ctx) {
 			for _, cfg := range c.Configs() {
 				c.e9Bytes(cfg)
@@ -56,7 +56,7 @@ func init() {
 		ID: "C06", Level: "other", Technique: "abstract interpretation of Point.Equal in the field-expression domain; the result is compared as a boolean polynomial over equality atoms",
 		Explanation: "Decides: Equal(v,u) = [X1·Z2 = X2·Z1] ∧ [Y1·Z2 = Y2·Z1] exactly (both coordinates, cross-multiplied by the other point's Z, combined with AND), for all coordinate values; both operands are guarded (G-INIT). NOT decided: that field Equal decides equality of residues (C10) and that cross-multiplied equality is point equality, which needs Z ≠ 0 (C12).",
 		TrustedBase: trustedE9,
-		Floors:      []report.Floor{{Rule: "E9", Min: 2}, {Rule: "G-INIT", Min: 4}},
+		Floors:      []report.Floor{{Rule: "E9", Min: 1}, {Rule: "G-INIT", Min: 2}},
 		Build: func(c *Ctx) {
 			for _, cfg := range c.Configs() {
 				c.e9Equal(cfg)
@@ -71,7 +71,7 @@ func init() {
 		ID: "C17", Level: "other", Technique: "abstract interpretation of BytesMontgomery in the field-expression domain (with Invert(0)=0); comparison with (1+y)/(1−y) as a rational function, plus the specialisation Y=Z",
 		Explanation: "Decides: BytesMontgomery returns enc((1+y)/(1−y)) with y = Y/Z, a quantity that depends on Y/Z only (hence equal for P and −P and for every projective representation); with Y = Z (y = 1, the identity) the inverted denominator is identically zero, Invert(0) = 0 and the output is 32 zero bytes; the input is guarded and the buffer fresh. NOT decided: equality with X25519 public keys (needs the ladder) and canonicity of enc (C10).",
 		TrustedBase: trustedE9,
-		Floors:      []report.Floor{{Rule: "E9", Min: 2 * 3}},
+		Floors:      []report.Floor{{Rule: "E9", Min: 3}},
 		Build: func(c *Ctx) {
 			for _, cfg := range c.Configs() {
 				c.e9Montgomery(cfg)
@@ -92,7 +92,7 @@ func init() {
 		ID: "C04", Level: "other", Technique: "control-dependence classification of the reject sites (G-ACCEPT) + path-partitioned abstract interpretation of Point.SetBytes in the field-expression domain + failed-setter atomicity (R-ATOMIC)",
 		Explanation: "Decides the accept/reject structure and the decoded value for all inputs at once: error sites are control-dependent on exactly {len(x) ≠ 32 (through field SetBytes), wasSquare = 0}; for 32-byte inputs y is the low 255 bits (no range check), (r, ok) = SqrtRatio(y²−1, d·y²+1), rejected iff ok = 0, otherwise the receiver becomes (Select(−r, r, bit 255) : y : 1 : x·y); failed calls leave the receiver untouched and the input is never written. NOT decided: that ok = 1 iff (y²−1)/(d·y²+1) is a square and r its even root (C16's numeric content) — hence 'iff y is the y-coordinate of a curve point' rests on C16/C09/C10.",
 		TrustedBase: trustedE9,
-		Floors:      []report.Floor{{Rule: "E9", Min: 2}, {Rule: "G-ACCEPT", Min: 2}, {Rule: "R-ATOMIC", Min: 2 * 4}},
+		Floors:      []report.Floor{{Rule: "E9", Min: 1}, {Rule: "G-ACCEPT", Min: 1}, {Rule: "R-ATOMIC", Min: 4}},
 		Build: func(c *Ctx) {
 			for _, cfg := range c.Configs() {
 				names := []string{"(*Point).SetBytes"}
@@ -117,7 +117,7 @@ func init() {
 		Explanation: "Decides: every success path of SetExtendedCoordinates requires exactly [−X²+Y² = Z²+d·T²] ∧ [X·Y = Z·T] (plus, if present, a zero-test of Z) and nothing else; the all-zero quadruple — by the argument of DESIGN C13.2 the only way a Z=0 input can satisfy both equations — does not reach the success site; on success the receiver becomes (X:Y:Z:T) position by position; failed calls leave the receiver untouched, inputs are never written; ExtendedCoordinates returns copies of (x,y,z,t) in this order in fresh storage after guarding its receiver. NOT decided: that field Equal decides equality of residues (C10).",
 		Assumptions: []string{"d and −d are non-squares mod p (so that, given both equations, Z = 0 forces X = Y = T = 0)"},
 		TrustedBase: trustedE9,
-		Floors:      []report.Floor{{Rule: "E9", Min: 2 * 3}, {Rule: "ZERO-ACCEPT", Min: 2}, {Rule: "R-ATOMIC", Min: 2 * 3}},
+		Floors:      []report.Floor{{Rule: "E9", Min: 3}, {Rule: "ZERO-ACCEPT", Min: 1}, {Rule: "R-ATOMIC", Min: 3}},
 		Build: func(c *Ctx) {
 			for _, cfg := range c.Configs() {
 				c.e9ExtendedCoordinates(cfg)
@@ -139,7 +139,7 @@ func init() {
 		ID: "C16", Level: "other", Technique: "abstract interpretation of SqrtRatio's body in the field-expression domain against the RFC 9496 §4.2 recipe (term identity), exponent-domain check of the (p−5)/8 chain, literal audit of sqrt(−1), alias rule",
 		Explanation: "Decides: SqrtRatio is SQRT_RATIO_M1 as a term identity — candidate r = u·v³·(u·v⁷)^((p−5)/8), check = v·r², wasSquare = [check = u] ∨ [check = −u], r multiplied by √−1 iff [check = −u] ∨ [check = −u·√−1], result Absolute(r) written to and returned as the receiver; the literal sqrtM1 is 2^((p−1)/4) mod p; Pow22523 is x^((p−5)/8) (exponent domain); r may alias u or v (R-ALIAS). NOT decided: that the recipe computes square roots (Euler criterion: number theory); evenness of Absolute rests on C10.",
 		TrustedBase: trustedE9,
-		Floors:      []report.Floor{{Rule: "E9", Min: 2}, {Rule: "E9-CONST", Min: 2}},
+		Floors:      []report.Floor{{Rule: "E9", Min: 1}, {Rule: "E9-CONST", Min: 1}},
 		Build: func(c *Ctx) {
 			for _, cfg := range c.Configs() {
 				c.e9SqrtRatio(cfg)
@@ -166,7 +166,7 @@ func init() {
 		Explanation: "(1) The representation invariant is computed, not assumed: the least limb bound closed under every exported Element operation (Go and assembly bodies, every build configuration of the tier) — by encapsulation this covers every representation any history of public calls can produce; at that bound every machine operation is free of wrap-around/underflow, the 128-bit accumulators stay below 2^(64+13), outputs stay within the bound, and the bound is < 2^52 and within Subtract's 2p margin. (2) Add, Subtract, Negate, Multiply, Square, Mult32 and carry propagation return limbs whose value is congruent to the specification mod p, as polynomial identities in the input limbs. (3) Invert = z^(p−2) and Pow22523 = x^((p−5)/8) by exponent arithmetic over their addition chains; Absolute = Select(−u, u, IsNegative(u)); Negate = 0 − a.",
 		Assumptions: []string{"the parity/zero tests behind IsNegative/Equal read the fully reduced value (C10)"},
 		TrustedBase: trustedLimb,
-		Floors:      []report.Floor{{Rule: "E4-INV", Min: 2 * 4}, {Rule: "E4-OBL", Min: 2}, {Rule: "E5-CONG", Min: 2 * 9}},
+		Floors:      []report.Floor{{Rule: "E4-INV", Min: 4}, {Rule: "E4-OBL", Min: 1}, {Rule: "E5-CONG", Min: 10}},
 		Build: func(c *Ctx) {
 			for _, cfg := range c.Configs() {
 				res := c.ruleLimbInvariant(cfg)
@@ -186,7 +186,7 @@ func init() {
 		Explanation: "For feMul/feSquare (amd64) and carryPropagate (arm64, thorough tier) the limb polynomials extracted from the .s text and from the portable Go sibling are identical (value mod p and limb for limb, both carry chains), their output bounds at the representation invariant are equal and every assembly machine-operation obligation discharges; the //go:build expressions of every multiply-declared function select exactly one definition under every tag assignment and each body-less stub is selected exactly when its assembly body is; the assembly touches only its pointer arguments (effect events derived from the .s text). Every other function is the same source in both configurations, so byte-identical public behaviour follows. NOT decided: that the assembler emits what the mnemonics say.",
 		TrustedBase: trustedLimb,
 		Programs:    3,
-		Floors:      []report.Floor{{Rule: "TV", Min: 2}, {Rule: "BUILD", Min: 3}},
+		Floors:      []report.Floor{{Rule: "TV", Min: 1}, {Rule: "BUILD", Min: 1}},
 		Build: func(c *Ctx) {
 			c.ruleBuildConstraints()
 			for _, cfg := range c.Configs() {
@@ -222,7 +222,7 @@ func init() {
 		ID: "C10", Level: "other", Technique: "abstract interpretation in a bit-provenance domain (exact layouts of SetBytes/bytes, which bits feed Equal and IsNegative), bit-level evaluation of the Select/Swap mask arithmetic, polynomial congruence of SetWideBytes, structural form of reduce",
 		Explanation: "Decides: SetBytes places input bits [51k,51k+51) in limb k and ignores bit 255 (so 2^255−19…2^255−1 decode to 0…18 without a range check); bytes writes bit (n mod 51) of reduced limb ⌊n/51⌋ to output bit n, pieces disjoint, reduce applied once on a copy; Equal is ConstantTimeCompare over the two complete canonical encodings and IsNegative is bit 0 of the canonical encoding (limbs read only through Bytes — so representation cannot matter); Select/Swap with cond ∈ {0,1} choose/exchange limb for limb; SetWideBytes ≡ the 512-bit integer mod p; reduce masks every limb to 51 bits and changes the value only by 19·(c − final carry); failed setters are atomic and wrong lengths are rejected without reading data. NOT decided: that reduce's c equals the final carry (the nested-floor identity), i.e. that the encoded integer is the representative below p — one residue class argument beyond these domains.",
 		TrustedBase: trustedLimb,
-		Floors:      []report.Floor{{Rule: "E8-LAYOUT", Min: 2 * 2}, {Rule: "E8-PRED", Min: 2 * 2}, {Rule: "E6-MUX", Min: 2 * 4}, {Rule: "E5-CONG", Min: 2}, {Rule: "REDUCE-FORM", Min: 2}},
+		Floors:      []report.Floor{{Rule: "E8-LAYOUT", Min: 2}, {Rule: "E8-PRED", Min: 2}, {Rule: "E6-MUX", Min: 4}, {Rule: "E5-CONG", Min: 1}, {Rule: "REDUCE-FORM", Min: 1}},
 		Build: func(c *Ctx) {
 			for _, cfg := range c.Configs() {
 				c.ruleFieldLayouts(cfg)
@@ -234,6 +234,7 @@ func init() {
 					}
 					if len(res.problems) == 0 {
 						c.ruleSelectSwap(cfg, res.box)
+						c.ruleSelfSwap(cfg, res.box)
 						c.ruleWideAndReduce(cfg, res.box)
 					}
 				}
@@ -263,7 +264,7 @@ func init() {
 		ID: "C07", Level: "other", Technique: "abstract interpretation of the Scalar wrappers in a ring-expression domain over Z/l with the fiat routines as contracted primitives (all aliasing patterns), exponent domain for Invert, bit-provenance domain for Equal, constant audit of the modulus",
 		Explanation: "Decides, given the fiat contracts: Add, Subtract, Negate, Multiply, MultiplyAdd, Set are x+y, x−y, −x, x·y, x·y+z, x in Z/l for every aliasing pattern of receiver and arguments (primitive binding, operand order, Montgomery-form discipline); Invert(t) = t^(l−2) by exponent arithmetic over the sliding-window chain (so Invert(0)=0); Equal returns ¬OR of all 256 bits of the reduced difference in bit 0 and nothing else (exactly 1 or 0); the words of l inside the generated routines and the literal l−1 agree with l = 2^252+27742317777372353535851937790883648493; the zero value is the zero words. NOT decided: the fiat routines themselves (Montgomery arithmetic) and the < l invariant they maintain.",
 		TrustedBase: trustedScalar,
-		Floors:      []report.Floor{{Rule: "RING", Min: 2 * 6}, {Rule: "E7-EXP", Min: 2}, {Rule: "E6-FOLD", Min: 2}, {Rule: "CONST", Min: 2 * 5}},
+		Floors:      []report.Floor{{Rule: "RING", Min: 7}, {Rule: "E7-EXP", Min: 1}, {Rule: "E6-FOLD", Min: 1}, {Rule: "CONST", Min: 6}},
 		Build: func(c *Ctx) {
 			for _, cfg := range c.Configs() {
 				c.ruleScalarArith(cfg)
@@ -274,6 +275,8 @@ func init() {
 					names := nameSet([]string{"(*Scalar).Add", "(*Scalar).Subtract", "(*Scalar).Negate", "(*Scalar).Multiply", "(*Scalar).MultiplyAdd", "(*Scalar).Invert", "(*Scalar).Equal", "(*Scalar).Set"})
 					c.addAll(keep(a.RAlias(), func(o report.Obligation) bool { return keyHasFunc(o, names) }))
 					c.addAll(keep(a.RReadOnly(), func(o report.Obligation) bool { return keyHasFunc(o, names) }))
+					// purity premise: the operations keep no state between (or across concurrent) calls
+					c.addAll(keep(a.RGlobal(), func(o report.Obligation) bool { return keyHasFunc(o, names) }))
 				}
 			}
 		},
@@ -282,7 +285,7 @@ func init() {
 		ID: "C08", Level: "other", Technique: "control-dependence classification of reject sites, length sweep on opaque data, ring-expression abstract interpretation of the four codecs over the 512 input bits, ordering-domain enumeration of isReduced, constant audit",
 		Explanation: "Decides, given the fiat contracts: error sites depend exactly on {len ≠ 32, ¬isReduced} / {len ≠ 64} / {len ≠ 32}; every other length is rejected without reading a byte; SetUniformBytes = Σ x[i]·256^i mod l over all 64 bytes (three slices each below l as from_bytes requires, recombined with 2^168 and 2^336 whose Montgomery literals are audited); SetBytesWithClamping = the RFC 8032 §5.1.5 clamped integer mod l, input untouched; SetCanonicalBytes accepts iff isReduced and then stores Σ x[i]·256^i; isReduced returns true exactly when the value is < l (all 50 feasible decision paths over the byte orderings {<,=,>} enumerated; its constant is l−1); Bytes = to_bytes∘from_montgomery; failed setters are atomic. NOT decided: the fiat from_bytes/to_bytes/Montgomery conversions themselves.",
 		TrustedBase: trustedScalar,
-		Floors:      []report.Floor{{Rule: "RING", Min: 2 * 4}, {Rule: "ORD", Min: 2}, {Rule: "G-ACCEPT", Min: 2 * 3}, {Rule: "LEN-SWEEP", Min: 2 * 3}, {Rule: "CONST", Min: 2 * 3}},
+		Floors:      []report.Floor{{Rule: "RING", Min: 4}, {Rule: "ORD", Min: 1}, {Rule: "G-ACCEPT", Min: 3}, {Rule: "LEN-SWEEP", Min: 3}, {Rule: "CONST", Min: 3}},
 		Build: func(c *Ctx) {
 			for _, cfg := range c.Configs() {
 				names := []string{"(*Scalar).SetCanonicalBytes", "(*Scalar).SetUniformBytes", "(*Scalar).SetBytesWithClamping"}
